@@ -4,7 +4,6 @@ import (
 	"fmt"
 
 	"github.com/ipld/go-ipld-prime"
-	"github.com/ipld/go-ipld-prime/must"
 )
 
 const (
@@ -17,7 +16,11 @@ const (
 func ValidateIntegerBoundsIPLD(node ipld.Node) error {
 	switch node.Kind() {
 	case ipld.Kind_Int:
-		val := must.Int(node)
+		val, err := node.AsInt()
+		if err != nil {
+			// an unsigned integer beyond int64 has the int kind too, but no int64 value
+			return fmt.Errorf("integer value exceeds safe bounds: %w", err)
+		}
 		if val > MaxInt53 || val < MinInt53 {
 			return fmt.Errorf("integer value %d exceeds safe bounds", val)
 		}
